@@ -16,6 +16,26 @@ use crate::model::{Aggregate, AggregateStatement, ExpressionTree, Float, Interva
 struct GroupKey(Vec<Value>);
 type Groups<T> = BTreeMap<GroupKey, HashMap<usize, T>>;
 
+impl GroupKey {
+    /// Of the keys that compare as equal (1 and 1.0) the same one names the group, whatever the order of the lines
+    fn take_name<T>(&self, groups: &mut Groups<T>) {
+        let rename = match groups.get_key_value(self) {
+            Some((current, _)) => {
+                self.0.iter().zip(current.0.iter())
+                    .map(|(x, y)| x.compare_representation(y))
+                    .find(|ordering| *ordering != std::cmp::Ordering::Equal) == Some(std::cmp::Ordering::Less)
+            }
+            None => false
+        };
+
+        if rename {
+            if let Some(group) = groups.remove(self) {
+                groups.insert(self.clone(), group);
+            }
+        }
+    }
+}
+
 pub struct AggregateExecutionEngine {
     group_aggregators: Groups<GroupAggregator>,
     group_values: Groups<Value>,
@@ -73,6 +93,9 @@ impl AggregateExecutionEngine {
         } else {
             GroupKey(vec![Value::Null])
         };
+
+        group_key.take_name(&mut self.group_aggregators);
+        group_key.take_name(&mut self.group_values);
 
         for (aggregate_index, aggregate) in aggregate_statement.aggregates.iter().enumerate() {
             self.update_aggregate(
